@@ -214,7 +214,7 @@ template <typename T>
 static void ob_initial_weights(H<T>& h)
 {
     std::size_t const C = h.get("C", 3);
-    T const beta = h.input("beta", 0.0, 1.0, true, false);
+    T const beta = h.input("beta", 0.0, 1.0);   // beta = 0 (no adaptation) is legal
     T const minw = h.input("min", 0.0, 1.0);
     h.assume(h.lt(minw * T(C), T(1.0)));
     if (h.get("user", 1) != 0)
